@@ -40,7 +40,7 @@ CLI_EVERY = 12
 
 
 def streams(ctx):
-    return [("modules", ctx.scale(160, 3000)), ("hand", len(HAND))]
+    return [("modules", ctx.scale(160, 3000)), ("hand", len(HAND)), ("header_comments", ctx.scale(24, 300))]
 
 
 HAND = [
@@ -57,6 +57,41 @@ def setup_shard(ctx, P):
     MON.install()
 
 
+def has_header_comment(src):
+    """does some def / class header carry a trailing comment, or is it followed by a comment line before its body?"""
+    import io
+    import tokenize
+
+    try:
+        toks = list(tokenize.generate_tokens(io.StringIO(src).readline))
+    except Exception:
+        return False
+    i, n = 0, len(toks)
+    while i < n:
+        t = toks[i]
+        if t.type == tokenize.NAME and t.string in ("def", "class") and (
+                i == 0 or toks[i - 1].type in (tokenize.NEWLINE, tokenize.NL, tokenize.INDENT, tokenize.DEDENT,
+                                               tokenize.COMMENT) or toks[i - 1].string == "async"):
+            depth, j = 0, i + 1
+            while j < n:
+                if toks[j].type == tokenize.OP and toks[j].string in "([{":
+                    depth += 1
+                elif toks[j].type == tokenize.OP and toks[j].string in ")]}":
+                    depth -= 1
+                elif toks[j].type == tokenize.OP and toks[j].string == ":" and depth == 0:
+                    break
+                j += 1
+            k = j + 1
+            while k < n and toks[k].type not in (tokenize.INDENT, tokenize.DEDENT, tokenize.ENDMARKER) and not (
+                    toks[k].type not in (tokenize.COMMENT, tokenize.NL, tokenize.NEWLINE)):
+                if toks[k].type == tokenize.COMMENT:
+                    return True
+                k += 1
+            i = j
+        i += 1
+    return False
+
+
 def has_defs(tree):
     return any(isinstance(n, astcmp.DEFS) for n in ast.walk(tree))
 
@@ -66,8 +101,13 @@ def judge(P, w, before, after, outcome, cfg, snap_diff, target_rel):
     P.monitor("doctrans.observed")
     feats = "style=%s,ta=%s" % (cfg["style"], cfg["ta"])
 
+    header_comment = w.get("stream") == "header_comments" and has_header_comment(before)
+
     def dev(kind, what, **extra):
-        P.deviation("doctrans.%s|%s" % (kind, feats), what, dict(w, config=cfg, before=before, after=after, **extra))
+        mech = ""
+        if header_comment and kind.startswith(("program-changed", "line-changed", "output-not-python", "comments")):
+            mech = "doctrans.comment-after-definition-header|"
+        P.deviation(mech + "doctrans.%s|%s" % (kind, feats), what, dict(w, config=cfg, before=before, after=after, **extra))
 
     others = [p for p in fsnap.changed_paths(snap_diff) if p not in (target_rel,)]
     P.monitor("fs.snapshot.compared")
@@ -123,7 +163,12 @@ def run_cli(path, cfg):
 
 def run_case(ctx, P, stream, idx):
     r = ctx.rng(stream, idx)
-    src = HAND[idx] if stream == "hand" else progen.gen_module(r, n_items=r.randint(1, 3), prelude=r.random() < 0.3)
+    if stream == "header_comments":
+        # probe: comments on / right after definition headers (`def f():  # why`): bound to one recorded finding
+        with progen.header_comments(0.4):
+            src = progen.gen_module(r, n_items=r.randint(1, 2), prelude=False)
+    else:
+        src = HAND[idx] if stream == "hand" else progen.gen_module(r, n_items=r.randint(1, 3), prelude=r.random() < 0.3)
     tree = ast.parse(src)
     d = tempfile.mkdtemp(prefix="vcdd-c07-")
     try:
